@@ -2,7 +2,7 @@
   Property C03, note edge — "everything a thread did before nsync_note_notify happens before what
   any observer that sees the note notified does afterwards", under the DECLARED memory orders only.
 
-  Model: `Model/Note.lean` (the current /repo/internal/note.c — after the repair of defect F5 — and
+  Model: `Model/Note.lean` (the current /repo/internal/note.c — after the repair of the defects F5 and F4 / F7 — and
   the nsync_wait_n path of nsync_note_wait, one atomic operation per step, any forest, any number of
   threads, any clock).  Its atomic events carry the order the operation REQUESTS; the acceptor
   rejects every atomic event whose order is not the one of the ATM_* macro at that site
@@ -16,12 +16,12 @@
   the interleaving (`C03_note_no_other_edges`).
 
   THE EDGE IS CARRIED BY
-    notifier  `ATM_STORE_REL (&n->notified, 1)`        note.c/1 (note_notify_child, note.c:89), or
-              `ATM_STORE_REL (&n->notified, 1)`        note.c/7 (nsync_note_new, note.c:199: born notified)
-    observer  `ATM_LOAD_ACQ (&n->notified)`             note.c/4 (nsync_note_notified_deadline_, note.c:146)
+    notifier  `ATM_STORE_REL (&n->notified, 1)`        note.c/1 (note_notify_child, note.c:113), or
+              `ATM_STORE_REL (&n->notified, 1)`        note.c/7 (nsync_note_new, note.c:228: born notified)
+    observer  `ATM_LOAD_ACQ (&n->notified)`             note.c/4 (nsync_note_notified_deadline_, note.c:175)
               or NOTIFIED_TIME (n) = `ATM_LOAD_ACQ (&(n_)->notified) …` (common.h:212) at
-              note.c/5 (:150, under the lock), note.c/3 (:120, notify), note.c/0 (:85,
-              note_notify_child), note.c/11 (:298, note_dequeue)
+              note.c/5 (:179, under the lock), note.c/3 (:149, notify), note.c/0 (:109,
+              note_notify_child), note.c/11 (:334, note_dequeue)
   and by the fact that every store to a `notified` word is a release store (`VInv.last`: the
   release sequence is restarted, never broken).  On EVERY path by which nsync_note_is_notified or
   nsync_note_wait returns 1 the observer itself performed such an acquire load that read 1 (or stored
@@ -632,7 +632,7 @@ example : (clocks notifyPre).vc 0 0 = 1 ∧ (clocks notifyAll).vc 1 0 = 1 ∧
 /-- NEGATIVE CONTROL (notifier's side).  The same event list with the store
     `ATM_STORE_REL (&n->notified, 1)` [note.c/1] weakened to a relaxed store: on the clock machine the
     observer's clock does not cover the notifier's clock at its call.  The edge is carried by the
-    release of note.c:89, not by the interleaving. -/
+    release of note.c:113, not by the interleaving. -/
 theorem C03_note_needs_release_store :
     ¬ VC.Clock.le ((clocks notifyPre).vc 0)
         ((clocks (notifyPre ++ notifyMid .rlx ++ observe .acq)).vc 1) := by
